@@ -121,13 +121,17 @@ class Calibrator:
       )
       if cache_output:
         self._cached_output.append(signature_output)
+      # Only the subgraph of the invoked signature holds fresh tensor values.
+      subgraph_index = tfl_interpreter_utils.get_signature_main_subgraph_index(
+          self._tfl_interpreter, signature_key
+      )
       self._tensor_content_map = (
           tfl_interpreter_utils.get_tensor_name_to_content_map(
-              self._tfl_interpreter
+              self._tfl_interpreter, subgraph_index
           )
       )
       # Step2: go through each op to update quantization statistic values.
-      for subgraph in self._flatbuffer_model.subgraphs:
+      for subgraph in [self._flatbuffer_model.subgraphs[subgraph_index]]:
         graph_info = qtyping.GraphInfo(
             subgraph.tensors, self._flatbuffer_model.buffers
         )
